@@ -437,6 +437,8 @@ def scenarios(tier="quick"):
     add("send+recv:resend-mixed", mixed, [("send", T0 + 125, APP("conc")), rx(mixed, "2", [(7, "3"), (16, "0")])], toggles=0)
     sess = active(shape="sess")
     add("send+recv:resend-session-rows", sess, [("send", T0 + 125, APP("conc")), rx(sess, "2", [(7, "3"), (16, "0")])])
+    add("send+recv:resend-bounded", a, [("send", T0 + 125, APP("conc")), rx(a, "2", [(7, "4"), (16, "5")])], toggles=0)
+    add("send+recv:resend-inverted", a, [("send", T0 + 125, APP("conc")), rx(a, "2", [(7, "5"), (16, "4")])])
     add("send+recv:resend-beyond", a, [("send", T0 + 125, APP("conc")), rx(a, "2", [(7, "9"), (16, "0")])])
     aw = active(state=12, max_resend=9)
     add("send+recv:resend-while-awaiting", aw, [("send", T0 + 125, APP("conc")), rx(aw, "2", [(7, "6"), (16, "0")], seq=5)])
@@ -793,8 +795,8 @@ def correspondence(ctx):
             "distinct_nontrivial": len({hash(x) for x in cmp_.shapes} | shapes_extra),
             "rule": "every schedule = (initial connection incl. journal, task set, initial back-pressure, letters); "
                     "quick: all schedules of {2 senders} x9, {sender + tick} x4, {sender + reader with one inbound frame: "
-                    "Logon x3, TestRequest, ResendRequest x8 (1-3 journaled messages, declined, session rows, holes, beyond, "
-                    "while awaiting), high seqnum, app, Heartbeat x2, Logout, GapFill, SequenceReset, CompID mismatch} and "
+                    "Logon x3, TestRequest, ResendRequest x10 (1-3 journaled messages, declined, session rows, holes, bounded EndSeqNo, "
+                    "EndSeqNo < BeginSeqNo, beyond, while awaiting), high seqnum, app, Heartbeat x2, Logout, GapFill, SequenceReset, CompID mismatch} and "
                     "{reader + tick}, each with the transport initially free / paused, branching over every enabled letter "
                     "at the first 6 nodes that offer a choice and completed first-enabled afterwards, plus uniformly random "
                     "maximal schedules of the long scenarios; thorough: the same scenario list extended by eleven 3-task "
